@@ -6,6 +6,7 @@ mod c03;
 mod c06;
 mod c08;
 mod c10;
+mod c11;
 mod c12;
 mod exec;
 mod fileck;
@@ -80,6 +81,7 @@ fn main() {
         "C07" => c01::run(&ctx, c01::Mode::C07),
         "C08" => c08::run(&ctx),
         "C10" => c10::run(&ctx),
+        "C11" => c11::run(&ctx),
         "C12" => c12::run(&ctx),
         _ => usage(),
     };
